@@ -3,6 +3,7 @@ package nodeprops
 import (
 	"errors"
 	"fmt"
+	"io"
 	"net"
 	"sync"
 	"sync/atomic"
@@ -610,7 +611,7 @@ func c10net(rep *vh.Report, seed uint64, idx int) {
 func TestC10(t *testing.T) {
 	rep := vh.NewReport("C10")
 	defer rep.Finish(t)
-	rep.Rule("seeded scenarios: 1..8 custom channels (sessions ending with one injected read error at an item boundary and re-opening) and TCP/UDP server endpoints with real loopback peers, and a serial endpoint through a fake opener whose ports fail persistently at item boundaries and mid-frame " +
+	rep.Rule("seeded scenarios: 1..8 custom channels (sessions ending with one injected read error at an item boundary and re-opening) and TCP/UDP server endpoints with real loopback peers, TCP client / UDP client / UDP broadcast endpoints against harness sockets, and a serial endpoint through a fake opener whose ports fail persistently at item boundaries and mid-frame " +
 		"(TCP peers disconnecting orderly, by reset and in the middle of a frame; UDP peers windowed); input = valid frames with unique ids, complete frames with wrong checksum / signature, " +
 		"unsigned frames on signed links, junk without markers, in random chunks; consumer fast / slow / bursty; 2..4 goroutines issuing Write*; heartbeats at 2 ms; schedule perturbation at " +
 		"the hook points; a quarter of the scenarios close the node first (safety half only). Per-channel automaton online + delivered-id sequence vs fed sequence offline. " +
@@ -624,6 +625,7 @@ func TestC10(t *testing.T) {
 		if i%5 == 4 {
 			c10net(rep, seed, i)
 			c10serial(rep, seed, i)
+			c10clients(rep, seed, i)
 		}
 		if rep.NViolations() > 4 {
 			break
@@ -635,6 +637,7 @@ func TestC10(t *testing.T) {
 	rep.Floor("hook:ch.reader.afterRead", 1000)
 	rep.Floor("scenarios_net", 3)
 	rep.Floor("scenarios_serial", 3)
+	rep.Floor("client_kind_scenarios", 3)
 	var _ = message.Message(nil)
 	var _ = ref.ParseOK
 }
@@ -746,4 +749,199 @@ func c10serial(rep *vh.Report, seed uint64, idx int) {
 	rep.Count("scenarios_serial", 1)
 	rep.Distinct("sig", hookSignature())
 	rep.Eval(1)
+}
+
+// c10clients: the remaining endpoint kinds — TCP client, UDP client, UDP broadcast — each carrying a hostile session:
+// exactly one frame event per valid frame, in order, attributed to the channel of that endpoint.
+func c10clients(rep *vh.Report, seed uint64, idx int) {
+	if aborted() {
+		return
+	}
+	r := vh.Sub(seed, fmt.Sprintf("c10-clients-%d", idx))
+	hookReset(r.U64(), true, true)
+	ln, err := net.Listen("tcp4", "127.0.0.1:0")
+	if err != nil {
+		rep.Inconclusive("C10 clients: " + err.Error())
+		return
+	}
+	defer ln.Close()
+	upc, err := net.ListenPacket("udp4", "127.0.0.1:0")
+	if err != nil {
+		rep.Inconclusive("C10 clients: " + err.Error())
+		return
+	}
+	defer upc.Close()
+	bport := freeUDPPort()
+	node := &gomavlib.Node{
+		Endpoints: []gomavlib.EndpointConf{
+			gomavlib.EndpointTCPClient{Address: ln.Addr().String()},
+			gomavlib.EndpointUDPClient{Address: upc.LocalAddr().String()},
+			gomavlib.EndpointUDPBroadcast{BroadcastAddress: fmt.Sprintf("127.255.255.255:%d", bport), LocalAddress: fmt.Sprintf("127.0.0.1:%d", bport)},
+		},
+		Dialect: testDialect, OutVersion: gomavlib.V2, OutSystemID: 79, HeartbeatPeriod: 20 * time.Millisecond, IdleTimeout: 5 * time.Second,
+	}
+	if err := node.Initialize(); err != nil {
+		rep.Inconclusive("C10 clients: " + err.Error())
+		return
+	}
+	c := newConsumer(rep, "C10", "clients", node)
+	c.start()
+	deliveredFor := func(label string) int {
+		n := 0
+		for _, ci := range c.allChannels() {
+			s := c.snapshot(ci)
+			if s.Label == label {
+				n += len(s.UIDs)
+			}
+		}
+		return n
+	}
+	type res struct {
+		kind, label string
+		want        []uint64
+		stream      bool
+	}
+	var mu sync.Mutex
+	var out []res
+	var wg sync.WaitGroup
+	// TCP client: the node connects to us; we send a hostile byte stream
+	wg.Add(1)
+	pr1 := r.Fork()
+	go func() {
+		defer wg.Done()
+		_ = ln.(*net.TCPListener).SetDeadline(time.Now().Add(3 * time.Second))
+		conn, err := ln.Accept()
+		if err != nil {
+			return
+		}
+		defer conn.Close()
+		go func() { _, _ = io.Copy(io.Discard, conn) }()
+		g := &inputGen{r: pr1, trIdx: 200, ts: 1}
+		data, uids := g.session(0, vh.Pick(60, 300)+pr1.Intn(100), true)
+		for off := 0; off < len(data); {
+			n := 1 + pr1.Intn(300)
+			if off+n > len(data) {
+				n = len(data) - off
+			}
+			if _, err := conn.Write(data[off : off+n]); err != nil {
+				break
+			}
+			off += n
+		}
+		label := "tcp:" + ln.Addr().String()
+		waitFor(func() bool { return deliveredFor(label) >= len(uids) }, c.nEvents, time.Second)
+		mu.Lock()
+		out = append(out, res{"tcp-client", label, uids, true})
+		mu.Unlock()
+	}()
+	// datagram endpoints: one frame per datagram, at most 8 outstanding
+	dgram := func(kind, label string, send func(w []byte) error, pr *vh.RNG, tag int) {
+		defer wg.Done()
+		var want []uint64
+		n := vh.Pick(60, 300) + pr.Intn(60)
+		for i := 0; i < n; i++ {
+			uid := uint64(tag)<<48 | uint64(i+1)
+			w := uidFrame(uid, byte(i), 5, pr.Chance(1, 4), nil, 0)
+			switch pr.Intn(8) {
+			case 0:
+				w = append([]byte(nil), w...)
+				w[len(w)-1] ^= 0x10 // wrong checksum
+			case 1:
+				w = []byte{1, 2, 3, 4, 5} // junk datagram
+			default:
+				want = append(want, uid)
+			}
+			if err := send(w); err != nil {
+				break
+			}
+			waitFor(func() bool { return deliveredFor(label) >= len(want)-8 }, c.nEvents, 300*time.Millisecond)
+		}
+		waitFor(func() bool { return deliveredFor(label) >= len(want) }, c.nEvents, 500*time.Millisecond)
+		mu.Lock()
+		out = append(out, res{kind, label, want, false})
+		mu.Unlock()
+	}
+	// UDP client: the node speaks first (heartbeats), we answer to where it spoke from
+	wg.Add(1)
+	pr2 := r.Fork()
+	go func() {
+		buf := make([]byte, 2048)
+		_ = upc.SetReadDeadline(time.Now().Add(3 * time.Second))
+		_, addr, err := upc.ReadFrom(buf)
+		if err != nil {
+			wg.Done()
+			return
+		}
+		go func() { // keep draining the node's heartbeats
+			_ = upc.SetReadDeadline(time.Time{})
+			for {
+				if _, _, err := upc.ReadFrom(buf); err != nil {
+					return
+				}
+			}
+		}()
+		dgram("udp-client", "udp:"+upc.LocalAddr().String(), func(w []byte) error { _, err := upc.WriteTo(w, addr); return err }, pr2, 201)
+	}()
+	// UDP broadcast: anybody on the segment sends to the node's local address
+	wg.Add(1)
+	pr3 := r.Fork()
+	go func() {
+		bc, err := net.Dial("udp4", fmt.Sprintf("127.0.0.1:%d", bport))
+		if err != nil {
+			wg.Done()
+			return
+		}
+		defer bc.Close()
+		dgram("udp-broadcast", fmt.Sprintf("udp:127.255.255.255:%d", bport), func(w []byte) error { _, err := bc.Write(w); return err }, pr3, 202)
+	}()
+	wg.Wait()
+	if !safeClose(rep, node) {
+		return
+	}
+	select {
+	case <-c.done:
+	case <-time.After(10 * time.Second):
+		rep.Inconclusive("C10 clients: event channel not closed after Close")
+		return
+	}
+	for _, x := range out {
+		var got []uint64
+		nch := 0
+		for _, ci := range c.allChannels() {
+			s := c.snapshot(ci)
+			if s.Label == x.label {
+				nch++
+				got = append(got, s.UIDs...)
+			}
+		}
+		rep.Count("client_kind_sessions_"+x.kind, 1)
+		rep.Count("client_kind_frames_"+x.kind, len(got))
+		wit := map[string]interface{}{"endpoint": x.kind, "label": x.label, "got": len(got), "want": len(x.want), "channels_with_that_label": nch}
+		if nch == 0 {
+			rep.Violation("what=lost ep="+x.kind, "the endpoint never produced a channel although its peer was there", wit)
+			continue
+		}
+		if nch > 1 {
+			rep.Violation("what=second-open ep="+x.kind, "one session produced several channels", wit)
+		}
+		if x.stream {
+			if !eqU64(got, x.want) {
+				rep.Violation("what="+classifySeq(got, x.want)+" ep="+x.kind, fmt.Sprintf("%d frame events for %d valid frames sent", len(got), len(x.want)), wit)
+			}
+			continue
+		}
+		// datagrams may be lost under overload: order and uniqueness
+		if cl := classifySeq(got, x.want); cl != "lost" && !eqU64(got, x.want) {
+			rep.Violation("what="+cl+" ep="+x.kind, "the channel delivered duplicated / reordered / foreign frames", wit)
+		}
+		if len(got) < len(x.want) {
+			rep.Count("udp_datagrams_not_delivered", len(x.want)-len(got))
+			if len(got) == 0 {
+				rep.Violation("what=lost ep="+x.kind, "none of the valid frames sent to the endpoint produced a frame event", wit)
+			}
+		}
+	}
+	rep.Eval(1)
+	rep.Count("client_kind_scenarios", 1)
+	rep.Distinct("clients", idx, hookSignature())
 }
